@@ -105,6 +105,25 @@ func runC17(c *Ctx) {
 			return got, "true true false true true"
 		}
 	})
+	// the shared blind is the first half of a 64-byte blinding key (a slice with spare capacity), the contexts differ per call and are
+	// short enough to fit behind it (round 8: blind ‖ 0x00 ‖ context built by appending to the caller's blind)
+	scenario("ed25519.shared-blind-with-capacity", func() func(g, k int) (string, string) {
+		sk := ed25519.PrivateKey(stded.NewKeyFromSeed(r.Bytes(32)))
+		pk := ed25519.PublicKey(sk[32:])
+		bkey := r.Bytes(64)
+		snapshot := append([]byte{}, bkey...)
+		blind := bkey[:32]
+		exact := append(make([]byte, 0, 32), blind...)
+		return func(g, k int) (string, string) {
+			ctx := []byte(fmt.Sprintf("c%d-%d", g, k))
+			want, _ := ed25519.BlindPublicKeyWithContext(pk, exact, ctx)
+			bp, _ := ed25519.BlindPublicKeyWithContext(pk, blind, ctx)
+			bs := ed25519.BlindKeySignWithContext(sk, ctx, blind, ctx)
+			up, _ := ed25519.UnblindPublicKeyWithContext(bp, blind, ctx)
+			got := fmt.Sprint(bytes.Equal(bp, want), ed25519.Verify(want, ctx, bs), bytes.Equal(up, pk), bytes.Equal(bkey, snapshot))
+			return got, "true true true true"
+		}
+	})
 	scenario("ecdsa.shared-key:Sign+Verify+Blind", func() func(g, k int) (string, string) {
 		sk, _ := ecdsa.CreateKey(elliptic.P384(), r.Bytes(48))
 		// every other round the shared blinding key comes from bytes that are not reduced modulo the group order
